@@ -196,7 +196,7 @@ def main(tier, replay=None):
         run_case(dict(source={"kind": "shipped", "name": name}, modes={},
                       ops=[("p", i * 7, "lo" if i % 3 else "hi", i) for i in range(30)]), rep)
     nshards = 16 if tier == "thorough" else 8
-    total = 16 * 500 if tier == "thorough" else 400
+    total = 16 * 2000 if tier == "thorough" else 400
     for p in engine.run_shards(_shard, nshards, common.verif_seed(), tier=tier, n_cases=total // nshards):
         rep.merge(p)
     runner = _Runner(Reporter(PID, tier, RULE))
